@@ -91,7 +91,7 @@ pub fn judge(ctx: &mut Ctx, layer: &'static Layer, depth: u8, lon: f64, lat: f64
       let (ci, cj) = { let (_, i, j) = split(depth, hc); (i as f64, j as f64) };
       let (mut mi, mut mj) = (0.0, 0.0);
       for c in r.iter() { let (_, i, j) = split(depth, c.0); mi += c.1 * (i as f64 - ci + 0.5); mj += c.1 * (j as f64 - cj + 0.5); }
-      let t = 1e-6 + 64.0 * f64::EPSILON * ns;
+      let t = 1e-6 + 64.0 * f64::EPSILON * ns * (lon.abs() * 4.0 / std::f64::consts::PI).max(8.0) / 8.0;
       ctx.worst_max("|weighted_mean-position|_cells", (mi - fx).abs().max((mj - fy).abs()));
       if (mi - fx).abs() > t || (mj - fy).abs() > t { ctx.violation("weighted-mean-of-cell-centres-is-not-the-position", mk.clone(), format!("mean=({}, {}) position=({}, {}) {:?}", mi, mj, fx, fy, r)); } else { ctx.bump("weighted-mean-checked"); }
     }
